@@ -172,6 +172,8 @@ def skeleton_rules(ctx, F):
     ctx.floor(R, "PageTreeIter literals in new", len(lits), 1)
     for bi, s, fields in lits:
         t = new.oname(fields["iter_limit"], 4)
+        if not ("len(" in t and "objects" in t):
+            t = new.sname(fields["iter_limit"], 5)     # a local that holds the value, built once, stands for its expression
         ctx.ob(R, "iter_limit-init|new", "len(" in t and "objects" in t, "iter_limit is initialised from %s" % t, new.where(s["ln"]),
                what="iter_limit is not initialised from the number of objects: the bound on enumeration work is gone or wrong")
     # Kids may be held behind a reference: the helper that fetches them must dereference
